@@ -92,15 +92,16 @@ def run(tier, seed):
             heights = [[idm(n.id), n.height] for n in tg.nodes]
 
             class StubLP:
-                class CM:
-                    coinstate = cs
-                chain_manager = CM()
                 import logging
                 logger = logging.getLogger('skv-stub')
+            _stub = StubLP()
+            _stub.chain_manager = MG.ChainManager(_stub, 0)      # the real manager object, holding the generated state
+            _stub.chain_manager.coinstate = cs
+            _stub.chain_manager.last_known_valid_coinstate = cs
 
             class Cap(RP.ConnectedRemotePeer):
                 def __init__(self):
-                    self.local_peer = StubLP()
+                    self.local_peer = _stub
                     self.host = 'stub'
                     self.sent = []
 
@@ -152,6 +153,8 @@ def run(tier, seed):
                         tmax = max(n.view.time for n in tg.nodes)
                         with simnet.Net(seed=rng.getrandbits(30), t0=tmax + 1000) as net:
                             nodes = [net.add_node('n%d' % i, chaingen.impl_state_from(h)) for i, h in enumerate(hist)]
+                            # the topology stays what it is: addresses learnt from peers lists cannot create extra links
+                            net.allowed = set(frozenset((nodes[x].host, nodes[y].host)) for (x, y) in topo)
                             for (x, y) in topo:
                                 net.link(nodes[x], nodes[y])
                             fired = net.run_until_quiet(max_events=60000, chunk=lambda rg: rg.choice([1, 7, 100, 1024, 1024]),
